@@ -181,3 +181,50 @@ Proof.
     + split; [intros _; right; exists t; split; [reflexivity | exact Ea] | reflexivity].
   - split; [intros _; left; reflexivity | reflexivity].
 Qed.
+
+(* ---- statement-level operand positions ------------------------------------------------------ *)
+Lemma all_stmts_complete : forall s : stmt, In s all_stmts.
+Proof.
+  intros s. unfold all_stmts.
+  destruct s as [a | a | a | a b | a b | a b c | a b c | a b c d | a b].
+  - apply in_or_app. left. apply in_map, all_tys_complete.
+  - apply in_or_app. right. apply in_or_app. left. apply in_map, all_tys_complete.
+  - do 2 (apply in_or_app; right). apply in_or_app. left. apply in_map, all_tys_complete.
+  - do 3 (apply in_or_app; right). apply in_or_app. left.
+    apply in_flat_map. exists a. split; [apply all_tys_complete | apply in_map, all_tys_complete].
+  - do 4 (apply in_or_app; right). apply in_or_app. left.
+    apply in_flat_map. exists a. split; [apply all_tys_complete | apply in_map, all_tys_complete].
+  - do 5 (apply in_or_app; right). apply in_or_app. left.
+    apply in_flat_map. exists a. split; [apply all_tys_complete | ].
+    apply in_flat_map. exists b. split; [apply all_tys_complete | apply in_map, all_tys_complete].
+  - do 6 (apply in_or_app; right). apply in_or_app. left.
+    apply in_flat_map. exists a. split; [apply all_tys_complete | ].
+    apply in_flat_map. exists b. split; [apply all_tys_complete | apply in_map, all_tys_complete].
+  - do 7 (apply in_or_app; right). apply in_or_app. left.
+    apply in_flat_map. exists a. split; [apply all_tys_complete | ].
+    apply in_flat_map. exists b. split; [apply all_tys_complete | ].
+    apply in_flat_map. exists c. split; [apply all_tys_complete | apply in_map, all_tys_complete].
+  - do 8 (apply in_or_app; right).
+    apply in_flat_map. exists a. split; [apply all_tys_complete | apply in_map, all_tys_complete].
+Qed.
+
+Lemma all_stmts_ok : forallb stmt_ok all_stmts = true.
+Proof. vm_compute. reflexivity. Qed.
+
+Lemma stmt_lowering_total :
+  forall s, tc_stmt s = true ->
+    exists code, lower_stmt s = SOk code /\ stmt_well_typed (SOk code) = true.
+Proof.
+  intros s Ht.
+  pose proof (proj1 (forallb_forall stmt_ok all_stmts) all_stmts_ok s (all_stmts_complete s)) as H.
+  unfold stmt_ok in H. rewrite Ht in H. cbn [negb orb] in H.
+  destruct (lower_stmt s) as [ | code]; [discriminate H | ]. exists code. split; [reflexivity | exact H].
+Qed.
+
+Lemma stmt_verdict_ok :
+  forall s, tc_stmt s = true -> verdict_stmt s = VOk.
+Proof.
+  intros s Ht. destruct (stmt_lowering_total s Ht) as (code & El & Hw).
+  unfold verdict_stmt. rewrite Ht, El. cbn [negb]. unfold stmt_well_typed in Hw.
+  destruct (code_verdict code); try discriminate Hw. reflexivity.
+Qed.
